@@ -12,7 +12,7 @@ import (
 
 func init() {
 	register(&Property{
-		ID: "C16",
+		ID:          "C16",
 		Explanation: "Destructive-path gating of opening a filesystem, decided on every path of STFS.Initialize and of the drive constructors: (no-append-when-root-exists) every call in Initialize that can reach a tape- or index-changing sink (including the rebuild itself and the root-creating closure) is reachable only across the edge on which GetRootPath returned ErrNoRootDirectory; (rebuild-error-not-destructive) on the failure edge of recovery.Index no call that reaches PurgeAllHeaders or GetWriter may follow; (no-truncate-on-open) the overwrite argument of tape.NewTapeManager is the constant false everywhere except the two whitelisted commands (operation initialize: constant true; operation archive: its --overwrite flag), NewTapeManager is never called from pkg/, and inside pkg/tape truncation and rewinding are control-dependent on the overwrite parameter while every regular open for writing carries O_APPEND.",
 		NotDecided:  "Faithfulness of what is shown after opening, stale-index handling, off-grid appends after an unaligned cut, behaviour on tapes no successful run produces.",
 		Assumptions: []string{"viper flag values are whatever the user passed; only their provenance (which flag) is checked"},
